@@ -15,7 +15,7 @@ from sim.world import environment_artefact, HarnessError, StepCap, Quiescent
 
 PROP = "C18"
 LEVEL = "fault_enumeration"
-COUNTS = {"quick": 6000, "thorough": 250000}
+COUNTS = {"quick": 5000, "thorough": 250000}
 MAX_SECONDS = {"quick": 100, "thorough": 1500}
 DET_EVERY = {"quick": 30, "thorough": 300}
 SHRINK_BUDGET = 500
@@ -57,10 +57,18 @@ KEYS = ["a", "b", "q", " ", "\n", "\t", "\x7f", "\x03", "\x1b[A", "\x1b[B", "\x1
         "\x1b[1;5C", "\x1b[3~", "\x1bb", "\x1b[200~", "é", "λ", "Ж", "│", "\U0001f600"]
 
 
-def _gen_extra(rng, enc):
+def _gen_extra(rng, enc, long_ok=True):
     k = rng.random()
     if k < 0.2:
         return ""
+    if long_ok and k > 0.985:
+        # a lot of type-ahead (a paste arriving while the position is asked for): cheap filler with the
+        # interesting fragments at the end.  (Not more: the library's regex cost grows fast, DESIGN 12.6)
+        tail = _gen_extra(rng, enc, False)
+        body = "".join(rng.choice(("abc", "\x1b[A", "x", " ", "\n", "42", ";")) for _ in range(rng.randint(30, 160)))
+        s = body + tail
+        if not REPORT_RE.search(s):
+            return s
     for _ in range(50):
         n = rng.choice((1, 1, 2, 3, 5, rng.randint(1, 12)))
         parts = []
@@ -98,7 +106,10 @@ def _gen_query(rng, enc):
     nerr = {}
     if rng.random() < 0.3:
         for _i in range(rng.randint(1, 4)):
-            nerr[str(rng.randint(1, len(extra) + 8))] = rng.choice((1, 1, 2, 3, 6))
+            # "any number of times": mostly a few, now and then very many in a row
+            r_ = rng.random()
+            nerr[str(rng.randint(1, len(extra) + 8))] = (rng.choice((1, 1, 2, 3, 6)) if r_ < 0.9 else
+                                                          17 if r_ < 0.96 else 100 if r_ < 0.99 else 1000)
     return {"op": "query", "row": row, "col": col, "extra": extra, "split": rng.randint(0, len(extra)),
             "trailing": trailing, "reply_delay": rng.choice((0, 0, 0.001, 0.5, 30.0)), "read_errors": nerr,
             "c1": rng.random() < 0.25}
@@ -267,7 +278,7 @@ def _variants(p, reads_per_step):
     if p["mode"] == "A":
         for i, st in enumerate(p["steps"]):
             m = reads_per_step.get(i, 0)
-            for j in range(1, m + 1):
+            for j in range(max(1, m - 30), m + 1):      # (with a lot of type-ahead: the reads around the report)
                 for cnt in (1, 3):
                     q = planmod.clone(p)
                     q["steps"][i]["read_errors"] = {str(j): cnt}
@@ -275,6 +286,10 @@ def _variants(p, reads_per_step):
             q = planmod.clone(p)
             q["steps"][i]["read_errors"] = {str(j): 1 + (j % 2) for j in range(1, m + 1)}
             out.append(q)
+            if m:
+                q = planmod.clone(p)
+                q["steps"][i]["read_errors"] = {str(1 + (len(out) % m)): 60}
+                out.append(q)
             n = len(st["extra"])
             for split in sorted(set((0, n, n // 2))):
                 for delay in (0, 2.5):
@@ -283,6 +298,7 @@ def _variants(p, reads_per_step):
                     q = planmod.clone(p)
                     q["steps"][i]["split"] = split
                     q["steps"][i]["reply_delay"] = delay
+                    q["steps"][i]["read_errors"] = {k: min(v, 6) for k, v in st["read_errors"].items()}
                     out.append(q)
     else:
         diffs = [i for i, st in enumerate(p["steps"]) if st["op"] == "diff"][:4]
